@@ -87,6 +87,7 @@ type Eng struct {
 	log     []string
 	rsMode  int
 	labels  map[string]bool
+	edits   map[string]int // number of registration edits per client
 	nCred   int
 	// digest parts for distinctness
 	kinds []string
@@ -120,7 +121,7 @@ var refreshScopeSets = [][]string{{}, nil, {"a"}}
 
 func NewEng(t *rapid.T, cfg EngCfg) *Eng {
 	h.ClockReset()
-	e := &Eng{t: t, cfg: cfg, labels: map[string]bool{}}
+	e := &Eng{t: t, cfg: cfg, labels: map[string]bool{}, edits: map[string]int{}}
 	store := rapid.SampledFrom(cfg.Stores).Draw(t, "store")
 	jwt := rapid.SampledFrom(cfg.JWT).Draw(t, "jwtAccess")
 	e.rsMode = rapid.SampledFrom(cfg.RefreshScopeModes).Draw(t, "refreshScopes")
@@ -184,6 +185,7 @@ func (e *Eng) form(client string, f url.Values) url.Values {
 
 func (e *Eng) newGrant(client, flow string, scopes, aud []string, subject string) *Grant {
 	g := &Grant{N: len(e.grants) + 1, Client: client, Flow: flow, Scopes: scopes, Aud: aud, Subject: subject, Extra: map[string]string{}}
+	g.Extra["editgen"] = fmt.Sprint(e.edits[client])
 	e.grants = append(e.grants, g)
 	return g
 }
@@ -301,6 +303,10 @@ func (e *Eng) invariant(stepTag string, own ...*Grant) {
 		if want == Unspec {
 			continue
 		}
+		if c.Kind == "refresh" && e.w.Cfg.DisableRefreshTokenValidation && want == Active {
+			// refresh-token introspection is switched off: a refresh token is never reported active
+			want, why = Inactive, "C09/refresh-token-reported-although-introspection-disabled"
+		}
 		use := fosite.AccessToken
 		if c.Kind == "refresh" {
 			use = fosite.RefreshToken
@@ -383,6 +389,14 @@ func (e *Eng) registerTokens(g *Grant, tr *h.TokenResult, gen int, flow string) 
 		a.Pair, r.Pair = r, a
 	}
 	want := e.refreshExpected(g.Flow, g.Client, g.Scopes)
+	if g.Flow == "code" || g.Flow == "hybrid" || g.Flow == "device" {
+		// the registration was changed between authorization and redemption: which of the two registrations
+		// counts for the refresh_token grant requirement is not specified
+		if then, ok := g.Extra["editgen"]; ok && then != fmt.Sprint(e.edits[g.Client]) {
+			e.label("refresh-grant-registration-changed-between-authorize-and-redeem")
+			want = r != nil
+		}
+	}
 	if want && r == nil {
 		e.viol("C05/refresh-token-missing", "flow %s for client %s with granted scopes %q: a refresh token was expected under refresh-scope mode %d but none was issued", flow, g.Client, g.Scopes, e.rsMode)
 	}
